@@ -62,6 +62,7 @@ def main():
     ap.add_argument("--tier", default="quick")
     ap.add_argument("--save", action="store_true")
     ap.add_argument("--par", type=int, default=5)
+    ap.add_argument("--name", help="directory name under /verif/seeded (default <property>-<i>)")
     a = ap.parse_args()
     wt, i, pid = a.wt, a.i, a.pid
     patch = os.path.join(wt, "patch%s.diff" % i)
@@ -96,7 +97,7 @@ def main():
         shutil.rmtree(os.path.join(wt, "__pkts__"), ignore_errors=True)
     print(json.dumps(res, indent=1))
     if a.save and res.get("valid"):
-        d = "/verif/seeded/%s-%s" % (pid, i)
+        d = "/verif/seeded/%s" % (a.name or "%s-%s" % (pid, i))
         os.makedirs(d, exist_ok=True)
         shutil.copy(patch, os.path.join(d, "patch.diff"))
         shutil.copy(os.path.join(wt, "demo%s.py" % i), os.path.join(d, "demo.py"))
